@@ -302,6 +302,7 @@ GEN_UNITS = {  # property -> units of Gen/Source.v its source-level theorems are
     "C09": ["iterate_over_valid_clips"],
     "C13": ["compute_similarity_matrix", "group_sound_events"],
     "C18": ["recording_save_path", "recording_load_path"],
+    "C15": ["load_clip_plan"],
 }
 
 
